@@ -3,7 +3,7 @@ ID = "C16"
 FAMILY = "tlv"
 RULE = ("cases: (a) histories of SetBytes/SetByte with tags 0..255, value lengths at the fragment "
         "boundaries (0,1,254..256,509..511,764..766,1019..1021,1024) and stepping/random lengths, repeated and "
-        "interleaved tags; (b) parser inputs: arbitrary bytes, every truncation of well-formed encodings, "
+        "interleaved tags, and histories with reads between the sets; (b) parser inputs: arbitrary bytes, well-formed item sequences with zero-length items,  every truncation of well-formed encodings, "
         "length-byte mutations. distinct = distinct case line; non-trivial = a history with a value > 255 bytes "
         "or a repeated tag, or a parser input of >= 2 bytes")
 BOUNDARY = [0, 1, 2, 254, 255, 256, 509, 510, 511, 764, 765, 766, 1019, 1020, 1021, 1024]
@@ -55,9 +55,31 @@ def gen(rng, tier):
             L = rng.choice(BOUNDARY) if r < 0.35 else (rng.randrange(0, 5) if r < 0.6 else rng.randrange(0, 700))
             ops.append("%d:%s" % (rng.choice(pool), rb(rng, L)))
         add("seq", "sets " + " ".join(ops))
+    # histories with reads in between (a read must not change or pin anything)
+    for _ in range(nseq // 3):
+        pool = rng.sample(range(256), 2)
+        ops = []
+        for _ in range(rng.randrange(2, 8)):
+            r = rng.random()
+            if r < 0.4:
+                ops.append("?%d" % rng.choice(pool))
+            else:
+                L = rng.choice([1, 1, 1, 0, 2, 255, 256, 300])
+                ops.append("%d:%s" % (rng.choice(pool), rb(rng, L)))
+        add("seq-reads", "sets " + " ".join(ops))
     # parser inputs
     for _ in range(nparse // 3):
         add("parse-random", "parse " + rb(rng, rng.randrange(0, 40)))
+    # well-formed item sequences as a peer may send them, zero-length items included (first, middle, last, only)
+    for dire in ("0600", "0000060101", "06000601", "0601050600", "ff00", "0000", "010001000100"):
+        add("parse-items", "parse " + dire)
+    for _ in range(nparse // 3):
+        its = []
+        pool = rng.sample(range(256), 2)
+        for _ in range(rng.randrange(1, 6)):
+            L = rng.choice([0, 0, 0, 1, 2, 5, 255])
+            its.append(bytes([rng.choice(pool), L]) + bytes(rng.getrandbits(8) for _ in range(L)))
+        add("parse-items", "parse " + b"".join(its).hex())
     bases = []
     for _ in range(4 if tier == "quick" else 40):
         ops = [(rng.randrange(256), bytes(rng.getrandbits(8) for _ in range(rng.choice([0, 1, 3, 10, 255, 256, 300]))))
@@ -82,6 +104,8 @@ def parse_line(line):
     if toks[0] == "sets":
         ops = []
         for t in toks[1:]:
+            if t.startswith("?"):
+                continue
             a, b = t.split(":")
             ops.append((int(a), bytes.fromhex(b)))
         return "sets", ops
@@ -153,6 +177,17 @@ def oracle(c, obs):
         if len(x) == 1 and len(x[0][1]) > 0:
             if any(len(v) != 255 for _, v in items[:-1]) or len(items[-1][1]) == 0:
                 return "fragments of one value must be 255 bytes each except a non-empty last one"
+        sofar = {}
+        for i, tok in enumerate(c["line"].split(" ")[1:]):
+            if tok.startswith("?"):
+                t = int(tok[1:])
+                hexv, first = f.get("q%d" % i, "??/-1").split("/")
+                w = sofar.get(t, b"")
+                if hexv != w.hex() or int(first) != (w[0] if w else 0):
+                    return "a read of tag %d in the middle of the history (operation #%d) does not return what was set so far" % (t, i)
+            else:
+                a, b = tok.split(":")
+                sofar[int(a)] = sofar.get(int(a), b"") + bytes.fromhex(b)
         for k, v in f.items():
             if k[0] in "ab" and k[1:].isdigit():
                 t = int(k[1:])
@@ -180,8 +215,11 @@ def oracle(c, obs):
             want[t] = want.get(t, b"") + v
         for k, v in f.items():
             if k[0] == "b" and k[1:].isdigit():
-                if bytes.fromhex(v.split("/")[0]) != want.get(int(k[1:]), b""):
+                w = want.get(int(k[1:]), b"")
+                if bytes.fromhex(v.split("/")[0]) != w:
                     return "GetBytes(%s) differs from the input's items" % k[1:]
+                if int(v.split("/")[1]) != (w[0] if w else 0):
+                    return "GetByte(%s) is not the first byte of the value (0 for an empty value)" % k[1:]
         return None
     # malformed input accepted: everything returned must still come from the input
     if len(ser) > len(x) or any(a != b for i, (a, b) in enumerate(zip(ser, x)) if True) and not _only_len_byte_differs(ser, x):
